@@ -476,3 +476,5 @@ func galPoints(ps []XPoint) string {
 }
 
 func mathFloat64bits(f float64) uint64 { return math.Float64bits(f) }
+
+func nan() float64 { return math.NaN() }
